@@ -278,11 +278,14 @@ func crashKind(s string) string {
 	return "died"
 }
 
+// tail returns an excerpt of a long process output: its beginning (where a Go
+// panic message or sanitizer report starts) and its end.
 func tail(s string, n int) string {
 	if len(s) <= n {
 		return s
 	}
-	return "…" + s[len(s)-n:]
+	h := n * 2 / 3
+	return s[:h] + " … " + s[len(s)-(n-h):]
 }
 
 // keepReplay copies a pending program into /verif/replays/<prop>/.
